@@ -53,6 +53,7 @@ type Frame struct {
 	loopN  int
 	esc    map[string]bool
 	inlCount map[*ssa.Function]int
+	exact  map[ssa.Value]*Term
 }
 
 // Options select what the executor generates.
@@ -103,6 +104,7 @@ type Exec struct {
 	ghostFuncs map[string]func(en *evalEnv, args []ev) ev
 	retHooks []func(e *Exec, fr *Frame, st *State, res []Value)
 	usedLoopKeys map[string]bool
+	pendingExact *Term
 }
 
 // Hook lets a family observe calls (ghost state).
